@@ -73,7 +73,12 @@ def build_pool(ctx, n):
             ('m', ((('i', 1), ('s', 'x')),)), ('m', ((('d', 1.0), ('s', 'x')),)),
             ('m', ((('s', 'a'), ('i', 1)), (('s', 'b'), ('i', 2)))), ('m', ((('s', 'b'), ('i', 2)), (('s', 'a'), ('d', 1.0)))),
             ('l', (('S', (('i', 1), ('i', 2))), ('null',))), ('l', (('S', (('i', 2), ('d', 1.0))), ('null',))),
-            ('S', (('l', (('i', 1),)), ('l', (('d', 1.0),))))]
+            ('S', (('l', (('i', 1),)), ('l', (('d', 1.0),)))),
+            # the band where a host hash of an int and of the equal float are reduced differently unless both go through the same
+            # reduction (CPython: modulus 2^61 - 1, word size 2^63) -- numerically equal means equal as element / key at every magnitude
+            ('i', 2 ** 61 - 1), ('i', 2 ** 61), ('d', float(2 ** 61)), ('i', 2 ** 62), ('d', float(2 ** 62)), ('i', -(2 ** 62)), ('d', -float(2 ** 62)),
+            ('i', 2 ** 63 - 1024), ('d', float(2 ** 63 - 1024)), ('i', 2 ** 63), ('d', float(2 ** 63)), ('i', 3 * 2 ** 60), ('d', float(3 * 2 ** 60)),
+            ('S', (('i', 2 ** 62),)), ('S', (('d', float(2 ** 62)),)), ('m', ((('i', 2 ** 62), ('s', 'x')),)), ('m', ((('d', float(2 ** 62)), ('s', 'x')),))]
     while len(pool) < n:
         v = G.rand_value(rng, depth=3)
         if G.has_date_number_mix(v) or G.is_negzero(v):
@@ -82,12 +87,12 @@ def build_pool(ctx, n):
         # an equal-but-distinct twin: ints <-> integral decimals, reversed insertion orders
         if rng.random() < 0.4:
             pool.append(twin(v, rng))
-    return pool[:max(n, 41)]
+    return pool[:max(n, 58)]
 
 
 def twin(v, rng):
     t = v[0]
-    if t == 'i' and abs(v[1]) <= 2 ** 53:
+    if t == 'i' and (abs(v[1]) <= 2 ** 53 or (abs(v[1]) < 2 ** 1000 and int(float(v[1])) == v[1])):
         return ('d', float(v[1]))
     if t == 'd' and v[1] == int(v[1]) and abs(v[1]) < 1e30:
         return ('i', int(v[1]))
